@@ -279,7 +279,10 @@ Verdict ==
       res == [e \in 1..Len(pg.envs) |->
                 LET r == Run(pg.raw, pg.envs[e])  f == Run(pg.fin, pg.envs[e]) IN
                 [defined |-> Defined(r) /\ Defined(f), equal |-> r = f, raw |-> r, fin |-> f,
-                 abs |-> IF Len(pg.abs) = 0 THEN r ELSE AbsRun(pg.abs, pg.raw, pg.envs[e], pg.vname)]]
+                 \* the denotation the raw tree is compared with: a generated token program, or a second raw program
+                 \* built differently through the API that must mean the same (e.g. a `let` variable inlined), or none
+                 abs |-> IF Len(pg.abs) > 0 THEN AbsRun(pg.abs, pg.raw, pg.envs[e], pg.vname)
+                         ELSE IF Len(pg.alt.nodes) > 0 THEN Run(pg.alt, pg.envs[e]) ELSE r]]
       ord == OrderOK(pg.fin)
   IN Emit("IR", [id |-> pg.id,
                  envs |-> [e \in 1..Len(res) |-> [defined |-> res[e].defined /\ Defined(res[e].abs), equal |-> res[e].equal,
